@@ -268,10 +268,72 @@ func (ff *FuncFacts) condAtoms(c ssa.Value, pol bool) []string {
 		}
 	}
 	t := ff.Term(c)
+	if _, isCall := c.(*ssa.Call); isCall {
+		// a single-use helper rendered as its return expression: a comparison keeps its comparison form
+		if x, op, y, ok := splitTopCmp(t); ok {
+			if !pol {
+				op = negOp(op)
+			}
+			switch op {
+			case token.GTR:
+				return []string{y + " < " + x}
+			case token.GEQ:
+				return []string{y + " <= " + x}
+			case token.LSS:
+				return []string{x + " < " + y}
+			case token.LEQ:
+				return []string{x + " <= " + y}
+			case token.EQL, token.NEQ:
+				return []string{x + " " + op.String() + " " + y, y + " " + op.String() + " " + x}
+			}
+		}
+	}
 	if pol {
 		return []string{t}
 	}
 	return []string{"!" + t}
+}
+
+// splitTopCmp splits "(X op Y)" at its top-level comparison operator.
+func splitTopCmp(t string) (x string, op token.Token, y string, ok bool) {
+	if len(t) < 2 || t[0] != '(' || t[len(t)-1] != ')' {
+		return
+	}
+	depth := 0
+	for i := 0; i < len(t)-1; i++ {
+		switch t[i] {
+		case '(', '[', '{':
+			depth++
+		case ')', ']', '}':
+			depth--
+			if depth == 0 {
+				return // the outer parentheses do not span the whole term
+			}
+		}
+	}
+	in := t[1 : len(t)-1]
+	depth = 0
+	for i := 0; i < len(in); i++ {
+		switch in[i] {
+		case '(', '[', '{':
+			depth++
+		case ')', ']', '}':
+			depth--
+		case ' ':
+			if depth != 0 {
+				continue
+			}
+			for _, c := range []struct {
+				s  string
+				op token.Token
+			}{{" == ", token.EQL}, {" != ", token.NEQ}, {" <= ", token.LEQ}, {" >= ", token.GEQ}, {" < ", token.LSS}, {" > ", token.GTR}} {
+				if strings.HasPrefix(in[i:], c.s) {
+					return in[:i], c.op, in[i+len(c.s):], true
+				}
+			}
+		}
+	}
+	return
 }
 
 func negOp(op token.Token) token.Token {
